@@ -113,6 +113,7 @@ package php5
 //@ drv table exca-hdr : forall s :: 0 <= s && s < n_yyDef ==> (uf_yyDef(s) == -2 ==> (0 <= uf_yyExcaHdr(s) && uf_yyExcaHdr(s) % 2 == 0 && uf_yyExcaHdr(s) + 1 < n_yyExca && uf_yyExca(uf_yyExcaHdr(s)) == -1 && uf_yyExca(uf_yyExcaHdr(s) + 1) == s))
 //@ drv table exca-end : forall s :: 0 <= s && s < n_yyDef ==> (uf_yyDef(s) == -2 ==> (uf_yyExcaHdr(s) < uf_yyExcaEnd(s) && uf_yyExcaEnd(s) % 2 == 0 && uf_yyExcaEnd(s) + 1 < n_yyExca && uf_yyExca(uf_yyExcaEnd(s)) < 0))
 //@ drv table exca-first : forall s, j :: 0 <= s && s < n_yyDef && 0 <= j && j < n_yyExca ==> ((uf_yyDef(s) == -2 && j < uf_yyExcaHdr(s) && j % 2 == 0) ==> !(uf_yyExca(j) == -1 && uf_yyExca(j + 1) == s))
+//@ drv table tok3-pairs : forall i :: 0 <= i && i < n_yyTok3 ==> ((i % 2 == 0 && uf_yyTok3(i) >= 1) ==> i + 1 < n_yyTok3)
 //@ drv table flag-has-default : forall s :: 0 <= s && s < n_yyPact ==> (uf_yyPact(s) <= yyFlag ==> uf_yyDef(s) != 0)
 
 // LR stack discipline: the one fact about the driver that is a property of goyacc's construction
@@ -140,15 +141,20 @@ package php5
 //@ drv inv xi % 2 == 0 && 0 <= xi && xi <= uf_yyExcaHdr(yystate)
 //@ drv inv xi % 2 == 0 && uf_yyExcaHdr(yystate) < xi && xi <= uf_yyExcaEnd(yystate)
 
-// The two generated helpers the driver calls. Their bodies index the token tables and (yyErrorMessage)
-// range over the message table; they are not verified here (listed as trusted in the evidence): the
-// driver proof uses only what is stated below.
+// The two generated helpers the driver calls. yylex1 is verified against its contract (E-VC, with the
+// table facts above); yyErrorMessage is used through the contract stated below.
 //@ func yylex1
 //@   requires lval != nil && typeis(lex, "internal/php5.Parser") && as(lex, "internal/php5.Parser") != nil && lexinv(as(lex, "internal/php5.Parser").Lexer)
 //@   ensures as(lex, "internal/php5.Parser").currentToken != nil
-//@   trusted goyacc token translation (calls lex.Lex, then maps the token through yyTok1/yyTok2/yyTok3)
+//@   loop 0 invariant 0 <= i && i % 2 == 0
+//@   props C01
 
 //@ func yyErrorMessage
+//@   requires 0 <= state && state < n_yyPact
 //@   ensures strlen(result) > 0
-//@   modifies nothing
-//@   trusted goyacc message builder
+//@   loop 0 invariant -1 <= rangeindex
+//@   loop 1 invariant 4 <= tok && 0 <= len(expected) && len(expected) <= 4 && cap(expected) == 4
+//@   loop 2 invariant i % 2 == 0 && 0 <= i && i <= uf_yyExcaHdr(state) && len(expected) <= 4 && cap(expected) == 4
+//@   loop 3 invariant i % 2 == 0 && uf_yyExcaHdr(state) < i && i <= uf_yyExcaEnd(state) && len(expected) <= 4 && cap(expected) == 4
+//@   loop 4 invariant strlen(res) > 0 && -1 <= rangeindex
+//@   props C01
